@@ -138,6 +138,14 @@ class Ctx:
     # ---------------------------------------------------------------- finish
     def finish(self, level="model_checking"):
         wall = time.time() - self.t0
+        if os.environ.get("VERIF_ALT"):
+            # this is the second interpreter of harness/altinterp.py: hand the verdicts back, write nothing else
+            import importlib
+            with open(os.environ["VERIF_ALT"], "w") as f:
+                json.dump({"optimized": not __debug__, "import_style": os.environ.get("VERIF_IMPORT_STYLE", "flat"),
+                           "violations": self.violations, "drift": self.drift[:20], "traces": self.traces, "replays": self.replays,
+                           "cases": len(self.case_keys), "known_seen": sum(self.known_seen.values()), "wall_s": round(wall, 2)}, f, default=str)
+            return 0
         os.makedirs(EVID, exist_ok=True)
         rdir = os.path.join(EVID, "replays")
         lines = []
@@ -257,6 +265,9 @@ def main(run_fn_by_pid, argv):
         if not a.replay and os.environ.get("VERIF_NO_SIZE_SWEEP") != "1":
             from . import sizesweep
             sizesweep.stage(ctx, quick=(tier == "quick"))        # routines on sizes beyond the exact families
+        if not a.replay and not os.environ.get("VERIF_ALT") and os.environ.get("VERIF_NO_ALT") != "1":
+            from . import altinterp
+            altinterp.stage(ctx)                                 # the whole check again under python -O with package-style imports
         return ctx.finish(level)
     except Exception as e:
         from . import par
